@@ -7,3 +7,41 @@ package cesium
 //@ guarded_by DB.mu.dbs.unary mu
 //@ guarded_by DB.mu.dbs.virtual mu
 //@ guarded_by DB.mu.digests.key mu
+
+//@ # ---------------------------------------------------------------- channel deletion (C15: "a deleted channel can no
+//@ # longer be retrieved, written or read at either layer")
+//@ ignorepkg github.com/synnaxlabs/cesium/internal/unary
+//@ ignorepkg github.com/synnaxlabs/cesium/internal/virtual
+//@ ignorepkg github.com/synnaxlabs/x/errors
+//@ ignorepkg github.com/synnaxlabs/x/io/fs
+//@ ignorepkg math/rand
+//@ ignorepkg strconv
+//@ ignorepkg sync/atomic
+//@ ignore func keyToDirName() string
+//@ # removeChannel: success means the key is in neither map; no other key is touched; a failure touches nothing
+//@ func (db *DB) removeChannel(ch ChannelKey) (err error)
+//@   # a key is a unary or a virtual channel, never both
+//@   requires forall k ChannelKey :: !(__in(db.mu.dbs.unary, k) && __in(db.mu.dbs.virtual, k))
+//@   ensures err == nil ==> !__in(db.mu.dbs.unary, ch) && !__in(db.mu.dbs.virtual, ch)
+//@   ensures err != nil ==> __in(db.mu.dbs.unary, ch) == old(__in(db.mu.dbs.unary, ch)) && __in(db.mu.dbs.virtual, ch) == old(__in(db.mu.dbs.virtual, ch))
+//@   ensures forall k ChannelKey :: k != ch ==> __in(db.mu.dbs.unary, k) == old(__in(db.mu.dbs.unary, k)) && __in(db.mu.dbs.virtual, k) == old(__in(db.mu.dbs.virtual, k))
+//@   modifies db.mu.dbs.unary, db.mu.dbs.virtual
+//@   loop 0 modifies nothing
+//@ # DeleteChannels: success means every listed key is gone from the engine, unary and virtual
+//@ # alike; keys that are not listed stay
+//@ func (db *DB) DeleteChannels(chs []ChannelKey) (err error)
+//@   requires forall k ChannelKey :: !(__in(db.mu.dbs.unary, k) && __in(db.mu.dbs.virtual, k))
+//@   ensures err == nil ==> (forall j int :: 0 <= j && j < len(chs) ==> !__in(db.mu.dbs.unary, chs[j]) && !__in(db.mu.dbs.virtual, chs[j]))
+//@   ensures forall k ChannelKey :: (forall j int :: 0 <= j && j < len(chs) ==> chs[j] != k) ==> __in(db.mu.dbs.unary, k) == old(__in(db.mu.dbs.unary, k)) && __in(db.mu.dbs.virtual, k) == old(__in(db.mu.dbs.virtual, k))
+//@   modifies db.mu.dbs.unary, db.mu.dbs.virtual
+//@   loop 1 invariant forall j int :: 0 <= j && j < __ri(0) ==> (!__in(db.mu.dbs.unary, chs[j]) && !__in(db.mu.dbs.virtual, chs[j])) || (exists m int :: 0 <= m && m < len(indexChannels) && indexChannels[m] == chs[j])
+//@   loop 1 invariant forall m int :: 0 <= m && m < len(indexChannels) ==> (exists j int :: 0 <= j && j < len(chs) && chs[j] == indexChannels[m])
+//@   loop 1 invariant forall k ChannelKey :: (__in(db.mu.dbs.unary, k) ==> old(__in(db.mu.dbs.unary, k))) && (__in(db.mu.dbs.virtual, k) ==> old(__in(db.mu.dbs.virtual, k)))
+//@   loop 1 invariant forall k ChannelKey :: (forall j int :: 0 <= j && j < len(chs) ==> chs[j] != k) ==> __in(db.mu.dbs.unary, k) == old(__in(db.mu.dbs.unary, k)) && __in(db.mu.dbs.virtual, k) == old(__in(db.mu.dbs.virtual, k))
+//@   loop 1 modifies db.mu.dbs.unary, db.mu.dbs.virtual
+//@   loop 2 invariant forall m int :: 0 <= m && m < __ri(0) ==> !__in(db.mu.dbs.unary, indexChannels[m]) && !__in(db.mu.dbs.virtual, indexChannels[m])
+//@   loop 2 invariant forall j int :: 0 <= j && j < len(chs) ==> (!__in(db.mu.dbs.unary, chs[j]) && !__in(db.mu.dbs.virtual, chs[j])) || (exists m int :: 0 <= m && m < len(indexChannels) && indexChannels[m] == chs[j])
+//@   loop 2 invariant forall k ChannelKey :: (__in(db.mu.dbs.unary, k) ==> old(__in(db.mu.dbs.unary, k))) && (__in(db.mu.dbs.virtual, k) ==> old(__in(db.mu.dbs.virtual, k)))
+//@   loop 2 invariant forall k ChannelKey :: (forall j int :: 0 <= j && j < len(chs) ==> chs[j] != k) ==> __in(db.mu.dbs.unary, k) == old(__in(db.mu.dbs.unary, k)) && __in(db.mu.dbs.virtual, k) == old(__in(db.mu.dbs.virtual, k))
+//@   loop 2 modifies db.mu.dbs.unary, db.mu.dbs.virtual
+//@   loop 0 modifies nothing
